@@ -28,7 +28,8 @@ def write_replay(prop, o, run=True):
     path = os.path.join(d, nm + '.json')
     rec = {'property': prop, 'obligation': o['name'], 'kind': o['kind'], 'function': o['func'],
            'line': o['line'], 'model': o['model'], 'detail': o['detail'],
-           'verifier_output': 'z3: sat (counterexample to the verification condition); model above',
+           'verifier_output': ('no verdict of the verifier: ' + str(o.get('detail'))) if o.get('native_only') else
+                              ('z3: ' + str(o.get('detail') or 'sat (counterexample to the verification condition); model above')),
            'native': None}
     reproduced = False
     if run:
